@@ -134,10 +134,23 @@ def dispatch_branches(m, f: FuncInfo):
     return out
 
 
-def kw_sources(call: ast.Call) -> dict[str, str]:
+def as_keywords(m, call: ast.Call, cls) -> list:
+    """The arguments of a constructor call as keywords: positional arguments are named after `cls.__init__`'s parameters
+    (the call's callee is a variable holding a subclass of the tested format; each concrete class is asked separately)."""
+    init = m.lookup(cls, "__init__") if cls is not None else None
+    names = init.params[1:] if init is not None else []
+    out = []
+    for i, a in enumerate(call.args):
+        if isinstance(a, ast.Starred) or i >= len(names):
+            continue
+        out.append(ast.keyword(arg=names[i], value=a))
+    return out + [k for k in call.keywords if k.arg]
+
+
+def kw_sources(call: ast.Call, m=None, cls=None) -> dict[str, str]:
     """constructor keyword -> results name it is fed from."""
     out = {}
-    for kw in call.keywords:
+    for kw in (as_keywords(m, call, cls) if m is not None else call.keywords):
         names = [x.attr for x in ast.walk(kw.value) if isinstance(x, ast.Attribute) and ast.unparse(x.value) == "line_parsed"]
         if names:
             out[kw.arg] = names[0]
@@ -177,7 +190,10 @@ def run(ctx: Ctx) -> None:
     r.check(set(register_numbers(reg_item)) == {str(i) for i in range(32)}, "hole|register", pc.loc(),
             "x<n> for n in 0..31 is not exactly what the register pattern accepts")
     cr = m.method(pc, "_convert_register_name", own=True)
-    r.check("return int(parsed_register[0][1])" in " ".join(ast.unparse(cr.node).split()), "convert|xN", cr.loc(),
+    from ..flowspec import merged_result as _mr
+    from ..parsershape import normal_flow as _nf
+    _cfl = _nf(m, cr)
+    r.check(any("int(P1[0][1])" in _cfl.canon(x) for x in _mr(_cfl)), "convert|xN", cr.loc(),
             "x<n> is no longer converted to n")
 
     for k in sorted(imap):
@@ -211,7 +227,7 @@ def run(ctx: Ctx) -> None:
         if br is None or br[1] is None:
             r.check(False, key, wi.loc(), f"{k}: no constructor dispatch branch for {c.name}")
             continue
-        src = kw_sources(br[1])  # kw -> results name
+        src = kw_sources(br[1], m, c)  # kw -> results name
         inv = {v: kk for kk, v in src.items()}
         problems = []
         for h in tpl:
@@ -240,7 +256,7 @@ def run(ctx: Ctx) -> None:
     if jb is None:
         raise AnalysisError("anchor vanished: JTypeInstruction branch")
     t, call, node = jb
-    kw = {k.arg: k.value for k in call.keywords}
+    kw = {k.arg: k.value for k in as_keywords(m, call, m.cls("JAL"))}
     sub_ok = any(isinstance(n, ast.If) and ast.unparse(n.test) in ("line_parsed.get('imm')",) and any(
         isinstance(s, ast.AugAssign) and isinstance(s.op, ast.Sub) and ast.unparse(s.target) == "imm_val" and ast.unparse(s.value) == "address_count"
         for s in n.body) for n in ast.walk(node))
